@@ -51,6 +51,7 @@ func LoadKnown() ([]Known, error) {
 type deathInfo struct {
 	class  string
 	stderr string
+	note   string
 }
 
 var fatalRe = regexp.MustCompile(`(?m)^fatal error: (.*)$`)
@@ -256,7 +257,7 @@ func RunCheck(id, tier string, seed int64, replayFile string) int {
 					werr := cmd.Wait()
 					timer.Stop()
 					syscall.Kill(-cmd.Process.Pid, syscall.SIGKILL) // stray grandchildren
-					done, open, cpu := readJournal(jf)
+					done, open, cpu, note := readJournal(jf)
 					if ms, _ := filepath.Glob(raceLog + ".*"); len(ms) > 0 {
 						mu.Lock()
 						for _, m := range ms {
@@ -309,7 +310,7 @@ func RunCheck(id, tier string, seed int64, replayFile string) int {
 					}
 					mu.Lock()
 					if idx >= 0 {
-						deaths[culprit] = deathInfo{class: cls, stderr: tail(stderr.String(), 6000)}
+						deaths[culprit] = deathInfo{class: cls, stderr: tail(stderr.String(), 6000), note: note}
 					}
 					mu.Unlock()
 					if idx < 0 {
@@ -345,9 +346,9 @@ func RunCheck(id, tier string, seed int64, replayFile string) int {
 			}
 			key := fmt.Sprintf("%s/%s/death/%s", id, c.Kind, d.class)
 			if chk.DeathKey != nil {
-				key = chk.DeathKey(c, d.class, d.stderr)
+				key = chk.DeathKey(c, d.class, d.stderr, d.note)
 			}
-			found = append(found, CaseFinding{c, Finding{Key: key, Detail: "worker process died while running this case: " + d.class, Witness: map[string]any{"stderr_tail": tail(d.stderr, 2500)}}})
+			found = append(found, CaseFinding{c, Finding{Key: key, Detail: "worker process died while running this case: " + d.class, Witness: map[string]any{"last_note": d.note, "stderr_tail": tail(d.stderr, 2500)}}})
 			agg.Evals++
 			continue
 		}
